@@ -252,26 +252,76 @@ def run_cell(ctx, fn, g, var, cell, fv, consts, float_names):
     def numeric():
         return state["kind"] == "int"
 
+    def convert_int(vname):
+        if state["kind"] == "str-decimal":
+            state["kind"] = "int"
+        elif state["kind"] in ("str-numeric", "str-other"):
+            # int("²") raises ValueError: does a handler catch it?
+            state["escape"] = "int(%s) raises ValueError for a %s string" % (vname, "numeric but not decimal (e.g. '²')" if state["kind"] == "str-numeric" else "non-numeric")
+
+    def inline_conversion(h, depth=0):
+        """var = h(var) with h a package function of one parameter: trace h on the same abstract value."""
+        hp = [p_ for p_ in h.params if p_ != h.self_name]
+        if len(hp) != 1 or depth > 2:
+            state["unknown"] = "helper %s is not understood" % h.name
+            return
+        sub = {"ret": None, "raise": None}
+
+        def visit2(n):
+            a2 = n.ast
+            if n.kind != "stmt" or state["escape"]:
+                return
+            if isinstance(a2, ast.Return):
+                sub["ret"] = a2.value
+            elif isinstance(a2, ast.Raise):
+                sub["raise"] = a2.exc
+            elif isinstance(a2, ast.Assign) and len(a2.targets) == 1 and isinstance(a2.targets[0], ast.Name) and a2.targets[0].id == hp[0]:
+                if isinstance(a2.value, ast.Call) and C.is_ext_call(ctx, a2.value, h, ("builtins.int",)) and a2.value.args and norm(a2.value.args[0]) == hp[0]:
+                    convert_int(hp[0])
+                else:
+                    state["unknown"] = "helper %s rebinds its parameter to %s" % (h.name, norm(a2.value))
+        try:
+            _, term2 = C.trace(C.cfg_of(h), C.cfg_of(h).entry, lambda e2: atom_for(e2, hp[0], h), visit=visit2)
+        except C.Undetermined as exc2:
+            state["unknown"] = "helper %s: %s" % (h.name, exc2)
+            return
+        if state["escape"] or state.get("unknown"):
+            return
+        if term2 != "exit":
+            exc2 = sub["raise"]
+            nm2 = norm(exc2.func if isinstance(exc2, ast.Call) else exc2).split(".")[-1] if exc2 is not None else "?"
+            state["inline_raise"] = nm2
+            return
+        r2 = sub["ret"]
+        if isinstance(r2, ast.Name) and r2.id == hp[0]:
+            return
+        if isinstance(r2, ast.Call) and C.is_ext_call(ctx, r2, h, ("builtins.int",)) and r2.args and norm(r2.args[0]) == hp[0]:
+            convert_int(hp[0])
+            return
+        state["unknown"] = "helper %s returns %s" % (h.name, norm(r2) if r2 is not None else "None")
+
     def visit(n):
         a = n.ast
-        if n.kind != "stmt" or state["escape"]:
+        if n.kind != "stmt" or state["escape"] or state.get("inline_raise") or state.get("unknown"):
             return
         if isinstance(a, ast.Assign) and len(a.targets) == 1 and isinstance(a.targets[0], ast.Name) and a.targets[0].id == var:
             v = a.value
             if isinstance(v, ast.Call) and C.is_ext_call(ctx, v, fn, ("builtins.int",)) and v.args and isinstance(v.args[0], ast.Name) and v.args[0].id == var:
-                if state["kind"] == "str-decimal":
-                    state["kind"] = "int"
-                elif state["kind"] in ("str-numeric", "str-other"):
-                    # int("²") raises ValueError: does a handler catch it?
-                    state["escape"] = "int(%s) raises ValueError for a %s string" % (var, "numeric but not decimal (e.g. '²')" if state["kind"] == "str-numeric" else "non-numeric")
+                convert_int(var)
+            elif isinstance(v, ast.Call) and len(v.args) == 1 and isinstance(v.args[0], ast.Name) and v.args[0].id == var and not v.keywords and C.targets_of(ctx, fn, v):
+                tg = C.targets_of(ctx, fn, v)
+                if len(tg) == 1:
+                    inline_conversion(tg[0])
+                else:
+                    state["unknown"] = "the argument is rebound to %s" % norm(v)
             else:
-                state["escape"] = "the argument is rebound to %s (not understood)" % norm(v)
+                state["unknown"] = "the argument is rebound to %s (not understood)" % norm(v)
         elif isinstance(a, ast.Return):
             state["ret"] = a.value
         elif isinstance(a, ast.Raise):
             state["raise"] = a.exc
 
-    def cmp_value(node):
+    def cmp_value(node, var=var):
         if isinstance(node, ast.Name) and node.id == var:
             if not numeric():
                 raise TypeError
@@ -282,8 +332,22 @@ def run_cell(ctx, fn, g, var, cell, fv, consts, float_names):
         return v
 
     def atom(e):
-        if state["escape"]:
+        return atom_for(e, var, fn)
+
+    def atom_for(e, var, fn):
+        if state["escape"] or state.get("inline_raise") or state.get("unknown"):
             return False
+        # a predicate helper of the package applied to the value:  is_power_of_two(x)
+        if isinstance(e, ast.Call) and len(e.args) == 1 and isinstance(e.args[0], ast.Name) and e.args[0].id == var and not e.keywords and not isinstance(e.func, ast.Attribute):
+            tg = C.targets_of(ctx, fn, e)
+            if len(tg) == 1:
+                h = tg[0]
+                hp = [p_ for p_ in h.params if p_ != h.self_name]
+                rets = [n_ for n_ in own_nodes(h.node) if isinstance(n_, ast.Return)]
+                if len(hp) == 1 and len(rets) == 1 and len(h.node.body) - (1 if isinstance(h.node.body[0], ast.Expr) and isinstance(getattr(h.node.body[0], "value", None), ast.Constant) else 0) == 1 \
+                        and rets[0].value is not None:
+                    return C.eval3(rets[0].value, lambda e2: atom_for(e2, hp[0], h))
+                return None
         txt = norm(e)
         if txt in fv:
             return fv[txt]
@@ -315,7 +379,7 @@ def run_cell(ctx, fn, g, var, cell, fv, consts, float_names):
             return cell.pow2 if kind == "pow2" else (not cell.pow2)
         if isinstance(e, ast.Compare):
             try:
-                vals = [cmp_value(e.left)] + [cmp_value(c) for c in e.comparators]
+                vals = [cmp_value(e.left, var)] + [cmp_value(c, var) for c in e.comparators]
             except TypeError:
                 state["escape"] = "ordering comparison between a string and a number raises TypeError"
                 return False
@@ -350,9 +414,13 @@ def run_cell(ctx, fn, g, var, cell, fv, consts, float_names):
         visited, term = C.trace(g, g.entry, atom, visit=visit)
     except C.Undetermined as exc:
         return "undetermined", str(exc)
+    if state.get("unknown"):
+        return "undetermined", state["unknown"]
     if state["escape"]:
         # inside a try whose handler converts?  (trace follows normal edges only; an escaping error is reported)
         return "escape", state["escape"]
+    if state.get("inline_raise"):
+        return ("plve", "") if state["inline_raise"] == "PieceLengthValueError" else ("other-exc", "raises %s" % state["inline_raise"])
     if term == "exit":
         r = state["ret"]
         if r is None:
@@ -390,9 +458,13 @@ def automatic(ctx):
         ctx.undecided("C12.2", fn, "expected a single return")
         return
     r = rets[0].value
-    if not (isinstance(r, ast.BinOp) and ((isinstance(r.op, ast.Pow) and fold_c(r.left) == 2) or (isinstance(r.op, ast.LShift) and fold_c(r.left) == 1))
-            and isinstance(r.right, ast.Name)):
+    pow_form = isinstance(r, ast.BinOp) and ((isinstance(r.op, ast.Pow) and fold_c(r.left) == 2) or (isinstance(r.op, ast.LShift) and fold_c(r.left) == 1))
+    if not pow_form:
         ctx.violated("C12.2", fn, "the automatic piece length is not returned as 2**e / 1 << e: it need not be a power of two", rets[0])
+        return
+    if not isinstance(r.right, ast.Name):
+        ctx.holds("C12.2", fn, "result is 2**(%s): a power of two by construction" % norm(r.right)[:50], rets[0])
+        _exponent_by_search(ctx, fn, r.right, size, fold_c)
         return
     e = r.right.id
     ctx.holds("C12.2", fn, "result is 2**%s: a power of two by construction" % e, rets[0])
@@ -467,6 +539,44 @@ def automatic(ctx):
     ctx.decide("C12.2", ppl, ok, "path_piece_length returns get_piece_length(...) unchanged", "path_piece_length does not return the automatic choice unchanged", "path_piece_length")
 
 
+def _exponent_by_search(ctx, fn, e, size, fold_c):
+    """Exponent written as  next((x for x in range(a, b) if <test>), default): the first candidate that passes."""
+    if isinstance(e, ast.Call) and norm(e.func) == "next" and len(e.args) == 2 and isinstance(e.args[0], ast.Name):
+        vals = [p_ for w_, p_ in ctx.res.bindings(fn).get(e.args[0].id, []) if w_ == "value"]
+        if len(vals) == 1 and isinstance(vals[0], ast.GeneratorExp):
+            e = ast.Call(func=e.func, args=[vals[0], e.args[1]], keywords=[])
+    ok_shape = isinstance(e, ast.Call) and norm(e.func) == "next" and len(e.args) == 2 and isinstance(e.args[0], ast.GeneratorExp) and len(e.args[0].generators) == 1
+    if ok_shape:
+        gen = e.args[0].generators[0]
+        rng = gen.iter
+        ok_shape = isinstance(rng, ast.Call) and norm(rng.func) == "range" and len(rng.args) == 2 and isinstance(gen.target, ast.Name) and norm(e.args[0].elt) == gen.target.id
+    if not ok_shape:
+        ctx.undecided("C12.2", fn, "the exponent `%s` is computed in a way the bound analysis does not understand" % norm(e)[:60], "loop bound of exponent")
+        return
+    a, b, dflt = fold_c(rng.args[0]), fold_c(rng.args[1]), fold_c(e.args[1])
+    if None in (a, b, dflt):
+        ctx.undecided("C12.2", fn, "the bounds of the exponent search are not constants", "loop bound of exponent")
+        return
+    lo, hi = min(a, dflt), max(b - 1, dflt)
+    ctx.decide("C12.2", fn, lo >= 14, "exponent is at least %d (>= 14): result >= 16 KiB" % lo, "exponent can be %d: the automatic choice can be below 16 KiB" % lo, "exponent lower bound")
+    ctx.decide("C12.2", fn, hi <= 24, "exponent is bounded by %d (<= 24): result <= 16 MiB" % hi, "exponent can reach %d: the automatic choice can exceed 16 MiB (2**24)" % hi, "loop bound of exponent")
+    # first exponent whose test passes; the test is `not (f(size) > const)` with f non-decreasing in size: a larger payload
+    # passes later, never earlier
+    mono = None
+    if len(gen.ifs) == 1:
+        t = gen.ifs[0]
+        if isinstance(t, ast.UnaryOp) and isinstance(t.op, ast.Not):
+            mono = upward_closed(t.operand, size)
+        elif isinstance(t, ast.Compare) and len(t.ops) == 1 and isinstance(t.ops[0], (ast.LtE, ast.Lt)):
+            flipped = ast.Compare(left=t.left, ops=[ast.Gt() if isinstance(t.ops[0], ast.LtE) else ast.GtE()], comparators=t.comparators)
+            mono = upward_closed(flipped, size)
+    if mono is None:
+        ctx.undecided("C12.2", fn, "the search condition of the exponent is not of the form not (f(size) > const)", "monotonicity")
+    else:
+        ctx.decide("C12.2", fn, mono, "the exponent search stops later, never earlier, for a larger %s: the piece length never decreases as the payload grows" % size,
+                   "the exponent search condition is not monotone in %s" % size, "monotonicity")
+
+
 def upward_closed(c, size):
     """Condition of the form  f(size) > const  with f non-decreasing in size."""
     if not (isinstance(c, ast.Compare) and len(c.ops) == 1):
@@ -504,6 +614,34 @@ def routes(ctx):
             continue
         if m is not init:
             ctx.violated("C12.3", m, "piece_length is assigned outside MetaFile.__init__: the recorded value is no longer the normaliser's result", site)
+            continue
+        if isinstance(val, ast.IfExp):
+            # self.piece_length = normalise(x) if <given> else automatic(...)
+            arms = [(val.body, val.test, True), (val.orelse, val.test, False)]
+            all_ok = True
+            for arm, test, pol in arms:
+                okc = isinstance(arm, ast.Call) and all(t[0] == "pkg" and (t[1] is norm_fn or t[1] in auto_fns) for t in ctx.res.call_targets(arm, m))
+                if not okc:
+                    all_ok = False
+                    ctx.violated("C12.3", m, "piece_length is assigned %s on one arm, which is not the unchanged result of the normaliser or of the automatic choice" % norm(arm), site)
+                    continue
+                direct += 1
+                tg = ctx.res.call_targets(arm, m)[0][1]
+                if tg is norm_fn:
+                    arg = arm.args[0] if arm.args else None
+                    ctx.decide("C12.3", m, isinstance(arg, ast.Name) and arg.id == "piece_length", "self.piece_length = normalize_piece_length(<the piece_length argument>)",
+                               "the normaliser is not applied to the piece_length argument itself", site)
+                    t_ = test
+                    if isinstance(t_, ast.Name):
+                        vals_ = [p_ for w_, p_ in ctx.res.bindings(m).get(t_.id, []) if w_ == "value"]
+                        t_ = vals_[0] if len(vals_) == 1 else t_
+                    truthy = any(isinstance(a, ast.Name) and a.id == "piece_length" for a in C.atoms_of(t_))
+                    if truthy:
+                        ctx.violated("C12.3", m, "whether a piece length was supplied is decided by truthiness (%s): the integer 0 is silently treated as 'not given' and a metafile is produced instead of the piece-length error" % norm(t_), t_)
+                    else:
+                        ctx.holds("C12.3", m, "supplied / not supplied is decided by %s" % norm(t_), t_)
+                else:
+                    ctx.holds("C12.3", m, "self.piece_length = automatic choice, unchanged", norm(site) + " :: automatic arm")
             continue
         ok = isinstance(val, ast.Call) and all(t[0] == "pkg" and (t[1] is norm_fn or t[1] in auto_fns) for t in ctx.res.call_targets(val, m))
         if ok:
